@@ -752,7 +752,7 @@ class Backend:
         if any('\n' in c for c in es.cmd_args):
             reasons.append('because command contains newlines')
 
-        if env and env.varnames:
+        if env and (env.varnames or env.unset_vars):
             reasons.append('to set env')
             # A value with a newline cannot be written into a `env K=V ...`
             # command line (ninja does not support newlines), it must be
